@@ -250,6 +250,25 @@ fn c06_seq(rng: &mut Rng, name: &'static str) -> Prepared {
     p
 }
 
+fn c06_seq_race(rng: &mut Rng, name: &'static str) -> Prepared {
+    let mut p = seq_prepare(rng, "C06", name, "C06R", (20, 80));
+    let mut cfg = seq_cfg(rng);
+    cfg.keys = rng.range(4, 8) as u32;
+    let ws: Vec<i64> = (0..cfg.keys).map(|_| *rng.pick(&[1i64, 2, 3, 4, 5, 8])).collect();
+    let sum: i64 = ws.iter().sum();
+    cfg.weight = (sum * rng.range_i(40, 95) / 100).max(2);
+    cfg.weight_fn = WeightFn::PerKey(ws);
+    cfg.pool = 1;
+    cfg.buffer = *rng.pick(&[1usize, 1, 2]);
+    cfg.counters = *rng.pick(&[16u64, 64, 100]);
+    rebuild_with_cfg(&mut p, cfg);
+    // give the consumer a good chance to lag behind the reads
+    if p.scenario.sched.stalls.is_empty() && rng.chance(1, 2) {
+        p.scenario.sched.stalls.push(Stall { role: RoleName::Consumer, from: rng.below(200), until: rng.range(300, 3000) });
+    }
+    p
+}
+
 fn c14_seq(rng: &mut Rng, name: &'static str) -> Prepared {
     let mut p = seq_prepare(rng, "C14", name, "C14", (25, 160));
     let mut cfg = seq_cfg(rng);
@@ -509,6 +528,17 @@ fn focus_for(name: &str) -> (Focus, Own) {
             f.verify_read_pct = 0;
             own_c06
         }
+        "C06R" => {
+            // the consumer is NOT quiesced before a put: batches may be applied while the worker decides
+            f.property = "C06";
+            f.mix = [34, 4, 8, 50, 2, 1, 0, 1];
+            f.ttl_pct = 5;
+            f.check_admission = true;
+            f.admission_race = true;
+            f.consumer_idle_pct = 0;
+            f.verify_read_pct = 0;
+            own_c06
+        }
         "C14" => {
             f.property = "C14";
             f.mix = [10, 3, 2, 82, 1, 1, 0, 1];
@@ -619,13 +649,75 @@ fn owners_params(rng: &mut Rng, ttl_pct: u64) -> ConcParams {
 }
 
 fn c03_conc(rng: &mut Rng, name: &'static str) -> Prepared {
-    let p = owners_params(rng, 35);
+    let mut p = owners_params(rng, 35);
+    p.bare_ttl_pct = 20;
     prep(conc(rng, "C03", name, &p))
+}
+
+fn c03_conc_sweeps(rng: &mut Rng, name: &'static str) -> Prepared {
+    let mut p = owners_params(rng, 80);
+    p.bare_ttl_pct = 30;
+    p.extra_sweeps = true;
+    p.mix = [24, 28, 8, 36, 0, 0, 0, 4];
+    prep(conc(rng, "C03", name, &p))
+}
+
+fn c09_conc_sweeps(rng: &mut Rng, name: &'static str) -> Prepared {
+    let mut p = owners_params(rng, 85);
+    p.bare_ttl_pct = 30;
+    p.extra_sweeps = true;
+    p.mix = [22, 30, 6, 38, 0, 0, 0, 4];
+    prep(conc(rng, "C09", name, &p))
+}
+
+/// One writer per key; weights only ever shrink (explicit weights below everything issued before
+/// for that key), TTL keys, many sweeps: UpdateWeight commands race the sweeper's deletes.
+fn shrink_vs_sweep(rng: &mut Rng, property: &str, name: &'static str) -> Prepared {
+    let mut p = owners_params(rng, 80);
+    p.extra_sweeps = true;
+    p.observer = true;
+    p.pressure = *rng.pick(&[Pressure::Fits, Pressure::Tight]);
+    p.mix = [26, 40, 6, 22, 4, 0, 0, 2];
+    let mut sc = conc(rng, property, name, &p);
+    let ws = match &sc.cfg.weight_fn {
+        WeightFn::PerKey(ws) => ws.clone(),
+        _ => unreachable!(),
+    };
+    let mut floor: Vec<i64> = ws.clone();
+    for prog in sc.threads.iter_mut() {
+        for op in prog.iter_mut() {
+            match op {
+                Op::Put { key, weight, .. } => {
+                    *weight = Some(ws[*key as usize]);
+                }
+                Op::Upsert { key, weight, val, .. } => {
+                    let k = *key as usize;
+                    let w = rng.range_i(1, floor[k].max(1));
+                    floor[k] = w;
+                    *weight = Some(w);
+                    if val.is_none() {
+                        // keep it a pure weight / TTL change
+                    }
+                }
+                _ => {}
+            }
+        }
+    }
+    prep(sc)
+}
+
+fn c01_shrink(rng: &mut Rng, name: &'static str) -> Prepared {
+    shrink_vs_sweep(rng, "C01", name)
+}
+
+fn c05_shrink(rng: &mut Rng, name: &'static str) -> Prepared {
+    shrink_vs_sweep(rng, "C05", name)
 }
 
 fn c09_conc_fits(rng: &mut Rng, name: &'static str) -> Prepared {
     let mut p = owners_params(rng, 85);
     p.mix = [22, 22, 4, 48, 0, 0, 0, 4];
+    p.bare_ttl_pct = 20;
     prep(conc(rng, "C09", name, &p))
 }
 
@@ -637,6 +729,7 @@ fn c09_conc_pressure(rng: &mut Rng, name: &'static str) -> Prepared {
 
 fn c10_conc(rng: &mut Rng, name: &'static str) -> Prepared {
     let mut p = owners_params(rng, 85);
+    p.bare_ttl_pct = 25;
     p.mix = [26, 26, 8, 36, 0, 0, 0, 4];
     let mut sc = conc(rng, "C10", name, &p);
     // make sure sweeps really happen: a dedicated time thread with ticks and rotations
@@ -897,21 +990,31 @@ seq_stratum!(c16_seq, "C16", "C16", 6, 40);
 pub fn plan(property: &str) -> Vec<Stratum> {
     let mut v = match property {
         "C01" => vec![
-            Stratum { name: "conc-observer", share: 5, gen: c01_conc },
+            Stratum { name: "conc-shrink-vs-sweep", share: 2, gen: c01_shrink },
+            Stratum { name: "conc-observer", share: 4, gen: c01_conc },
             Stratum { name: "seq-model", share: 3, gen: c01_seq },
             Stratum { name: "seq-many-light-keys", share: 2, gen: c01_seq_many_light },
         ],
         "C02" => vec![Stratum { name: "conc", share: 10, gen: c02_conc }],
-        "C03" => vec![Stratum { name: "conc-owners", share: 7, gen: c03_conc }, Stratum { name: "seq-long", share: 3, gen: c03_seq }],
+        "C03" => vec![
+            Stratum { name: "conc-owners", share: 5, gen: c03_conc },
+            Stratum { name: "conc-owners-sweeps", share: 3, gen: c03_conc_sweeps },
+            Stratum { name: "seq-long", share: 3, gen: c03_seq },
+        ],
         "C04" => vec![Stratum { name: "conc-delete-race", share: 6, gen: c04_conc }, Stratum { name: "seq-model", share: 4, gen: c04_seq }],
-        "C05" => vec![Stratum { name: "conc-same-key-races", share: 8, gen: c05_conc }, Stratum { name: "seq-model", share: 2, gen: c05_seq }],
-        "C06" => vec![Stratum { name: "seq-admission", share: 10, gen: c06_seq }],
+        "C05" => vec![
+            Stratum { name: "conc-same-key-races", share: 6, gen: c05_conc },
+            Stratum { name: "conc-shrink-vs-sweep", share: 2, gen: c05_shrink },
+            Stratum { name: "seq-model", share: 2, gen: c05_seq },
+        ],
+        "C06" => vec![Stratum { name: "seq-admission", share: 7, gen: c06_seq }, Stratum { name: "seq-admission-racing-consumer", share: 3, gen: c06_seq_race }],
         "C07" => vec![Stratum { name: "seq-lifecycle", share: 7, gen: c07_seq }, Stratum { name: "conc-same-key-puts", share: 3, gen: c07_conc }],
         "C08" => vec![Stratum { name: "seq-upsert", share: 7, gen: c08_seq }, Stratum { name: "conc-unawaited-upserts", share: 3, gen: c08_conc }],
         "C09" => vec![
             Stratum { name: "seq-clock", share: 4, gen: c09_seq },
             Stratum { name: "seq-clock-backward", share: 1, gen: c09_seq_backward },
-            Stratum { name: "conc-owners-fits", share: 3, gen: c09_conc_fits },
+            Stratum { name: "conc-owners-fits", share: 2, gen: c09_conc_fits },
+            Stratum { name: "conc-owners-fits-sweeps", share: 2, gen: c09_conc_sweeps },
             Stratum { name: "conc-owners-pressure", share: 2, gen: c09_conc_pressure },
         ],
         "C10" => vec![Stratum { name: "seq-sweeps", share: 6, gen: c10_seq }, Stratum { name: "conc-owners-sweeps", share: 4, gen: c10_conc }],
